@@ -498,6 +498,11 @@ def _ipoly(e, defs, depth=0):
         return l + r if isinstance(e.op, ast.Add) else (l - r if isinstance(e.op, ast.Sub) else l * r)
     if isinstance(e, ast.UnaryOp) and isinstance(e.op, ast.USub):
         return -_ipoly(e.operand, defs, depth + 1)
+    if isinstance(e, (ast.Attribute, ast.Subscript, ast.Call)):
+        # an opaque integer quantity (x.shape[0], len(xs), self._n ...): a symbol named by its text
+        if isinstance(e, ast.Call) and (dotted(e.func) or "") == "int" and len(e.args) == 1:
+            return _ipoly(e.args[0], defs, depth + 1)
+        return Poly.sym(unparse(e))
     raise ValueError("not an integer polynomial: %s" % unparse(e))
 
 
